@@ -263,8 +263,21 @@ def justify(facts, s):
         reg = models._slice_region(ct)
         if reg is not None:
             return "J13", "slice of the string at the position of %r found in it (%s)" % (reg[1], reg[0])
-        # the position may come from one of several searches (joined arms), each on the same string
+        # generic helper: &s[..i] / &s[i + c.len_utf8()..] with i = s.find(c) / s.rfind(c) for the same (arbitrary) char c
         s_, rg = ct[2]
+        if rg[0] == "agg" and rg[1][0] == "adt" and rg[1][1] in ("std::ops::RangeTo", "std::ops::RangeFrom") and len(rg[2]) == 1:
+            pos = rg[2][0]
+            clen = None
+            if rg[1][1] == "std::ops::RangeFrom":
+                q = pos[1] if pos[0] == "field" and pos[2] == "0" else pos
+                if q[0] == "binop" and q[1] in ("AddWithOverflow", "Add") and q[3][0] == "call" and q[3][1].endswith("<impl char>::len_utf8") and len(q[3][2]) == 1:
+                    pos, clen = q[2], q[3][2][0]
+                else:
+                    pos = None
+            if pos is not None and pos[0] in ("some", "ok") and pos[1][0] == "call" and pos[1][1] in (models.STR + "find", models.STR + "rfind") and pos[1][2][0] == s_ and (clen is None or clen == pos[1][2][1]):
+                if clen is not None or rg[1][1] == "std::ops::RangeTo":
+                    return "J13", "slice of the string at the position of the char found in it (plus that char's own UTF-8 length)"
+        # the position may come from one of several searches (joined arms), each on the same string
         if rg[0] == "agg" and rg[1][0] == "adt" and rg[1][1] in ("std::ops::RangeTo", "std::ops::RangeFrom") and len(rg[2]) == 1:
             pos = rg[2][0]
             if rg[1][1] == "std::ops::RangeFrom":
